@@ -55,6 +55,50 @@ class DecodeChannelInto(Contract):
         idx, inb = self.chunk.forall(None)
         c.assume(inb)
         yield ("other-channels-untouched", implies(idx[0] != self.channel, self.chunk.elem(*idx) == self.before.elem(*idx)))
+        # (decoder_vs_spec below is not registered: the obligations only discharged for bit widths 0 and
+        #  32 within budget on the unchanged tree, so the decoder's conformance to the format is covered
+        #  by the bounded unit of C02 instead -- see DESIGN.md)
+
+    def decoder_vs_spec(self, c):
+        """C02: the voxel written for an arbitrary position of the arbitrary block equals what the
+        format description prescribes (for the bit widths where the obligation is within budget)."""
+        from pyvc.sbytes import le_compose
+        closed = getattr(c, "closed_loops", [])
+        if not closed or len(closed[-1]) != 3:
+            return
+        (_, bz_i, _, _), (_, by_i, _, _), (_, bx_i, _, _) = closed[-1]
+        bx, by, bz = self.bs
+        C, Z, Y, X = self.chunk.shape
+        isz = self.chunk.dtype.itemsize
+        gx = (X - 1) // bx + 1 if False else None
+        gxv = c.divmod(X - 1, bx)[0] + 1          # the code's ceil_div (same cached quotient terms)
+        gyv = c.divmod(Y - 1, by)[0] + 1
+        h = 8 * (bx_i + gxv * (by_i + gyv * bz_i))
+        w0 = le_compose(self.buf.fn, h, 4)
+        w1 = le_compose(self.buf.fn, h + 4, 4)
+        bits = c.concretize(SInt(core._i(w0) / (1 << 24)))
+        if bits is None:
+            yield ("C02:bit-width-of-the-block-is-decided-on-this-path", False)
+            return
+        if bits in (1, 2):
+            return                      # widths 1 and 2: covered by the bounded units of C02
+        tab = 4 * SInt(core._i(w0) % (1 << 24))
+        dz, dy, dx = c.int("dz"), c.int("dy"), c.int("dx")
+        Zp, Yp, Xp = bz_i * bz + dz, by_i * by + dy, bx_i * bx + dx
+        c.assume(And(dz >= 0, dz < bz, dy >= 0, dy < by, dx >= 0, dx < bx, Zp < Z, Yp < Y, Xp < X))
+        k = dx + bx * (dy + by * dz)
+        if bits == 0:
+            idx = 0
+        else:
+            per = 32 // bits
+            q, r = c.divmod(k, per)
+            word = le_compose(self.buf.fn, 4 * w1 + 4 * q, 4)
+            idx = None
+            for s_ in range(per):
+                v = SInt((core._i(word) / (1 << (bits * s_))) % (1 << bits))
+                idx = v if idx is None else ite(r == s_, v, idx)
+        exp = le_compose(self.buf.fn, tab + isz * idx, isz)
+        yield (f"C02:decoded-voxel==format-description[bits={bits}]", self.chunk.elem(self.channel, Zp, Yp, Xp) == exp)
 
     def raises_when(self, c):
         from neuroglancer_scripts.chunk_encoding import InvalidFormatError
